@@ -2,7 +2,7 @@
 """Regenerates /verif/MANIFEST.json from the table below (kept valid at all times)."""
 import json, sys, os
 
-HOOK_COMMITS = ["0aadbb0", "f520fb1"]
+HOOK_COMMITS = ["0aadbb0", "f520fb1", "ca8b442"]
 
 # id -> (engine, technique, level text, level note, design ref)
 CHECKS = {
